@@ -50,8 +50,11 @@ def build_poly_component(rng, nx, na, ny, levels, kpl, domains, norms=None, name
     return comp, terms
 
 
-def grow_to(comp, na, order):
-    for c in order:
+def grow_to(comp, na, order, widen_after=None, widen=None):
+    """activate the indices of `order`; optionally the domain of one input is widened (widen = (name, new_domain)) after `widen_after` activations"""
+    for k, c in enumerate(order):
+        if widen is not None and k == widen_after:
+            comp.inputs[widen[0]].update_domain(widen[1])
         comp.activate_index(tuple(c[:na]), tuple(c[na:]))
 
 
